@@ -40,24 +40,17 @@ def readLabel (a : BinArchive) (r : Reader) (index : Nat) : Res (Option Str) :=
   | .err e => .err e
   | .panic => .panic
 
-/-- `read_bytes(count)`: `count` single-byte reads; on failure the cursor stays where the failing
-read left it (the Rust returns early with the bytes read so far discarded). The error result does
-not expose the cursor, so only `ok` carries the new reader. -/
-def readBytes (a : BinArchive) (r : Reader) : Nat → Res (Bytes × Reader)
-  | 0 => .ok ([], r)
-  | n + 1 =>
-    match readU8 a r with
-    | .ok (v, r') =>
-      match readBytes a r' n with
-      | .ok (vs, r'') => .ok (UInt8.ofNat v :: vs, r'')
-      | .err e => .err e
-      | .panic => .panic
-    | .err e => .err e
-    | .panic => .panic
+/-- `read_bytes(count)` (after fix D19): an empty read succeeds at any cursor; otherwise it is the
+positional `read_bytes` at the cursor, which then advances by `count`.  A failure changes nothing. -/
+def readBytes (a : BinArchive) (r : Reader) (count : Nat) : Res (Bytes × Reader) :=
+  if count = 0 then .ok ([], r) else
+  match BinArchive.readBytes a r.pos count with
+  | .ok b => .ok (b, ⟨r.pos + count⟩)
+  | .err e => .err e
+  | .panic => .panic
 
-/-- Cursor after a *failed* `read_bytes(count)`: advanced by the number of bytes that could be read. -/
-def readBytesFailPos (a : BinArchive) (r : Reader) (count : Nat) : Nat :=
-  r.pos + min count (a.size - r.pos)
+/-- Cursor after a *failed* `read_bytes(count)`: unchanged (fix D19). -/
+def readBytesFailPos (_a : BinArchive) (r : Reader) (_count : Nat) : Nat := r.pos
 
 /-- `EncodedStringReader for BinArchiveReader`: bytes up to the terminator, then align to 4. -/
 def alignUp (p : Nat) : Nat := p + (4 - p % 4) % 4
@@ -124,15 +117,15 @@ def writeI32 (w : Writer) (v : Int) := w.writeU32 (ofSigned 32 v)
 def tell (w : Writer) : Nat := w.pos
 def size (w : Writer) : Nat := w.archive.size
 
-/-- `write_bytes`: byte by byte; a failure leaves the bytes already written in place and the
-cursor after them, so the writer state is returned in every case. -/
-def writeBytes (w : Writer) : Bytes → Writer × Res Unit
-  | [] => (w, .ok ())
-  | b :: bs =>
-    match w.writeU8 b.toNat with
-    | .ok w' => writeBytes w' bs
-    | .err e => (w, .err e)
-    | .panic => (w, .panic)
+/-- `write_bytes` (after fix D19): an empty write succeeds at any cursor; otherwise it is the
+positional `write_bytes` at the cursor, which then advances by the length.  A failure changes
+nothing (the writer is returned in every case because the harness reads the cursor back). -/
+def writeBytes (w : Writer) (v : Bytes) : Writer × Res Unit :=
+  if v.isEmpty then (w, .ok ()) else
+  match w.archive.writeBytes w.pos v with
+  | .ok a => (⟨a, w.pos + v.length⟩, .ok ())
+  | .err e => (w, .err e)
+  | .panic => (w, .panic)
 
 /-- `allocate`: at the end of the archive it appends (always accepted), else `BinArchive::allocate`. -/
 def allocate (w : Writer) (amount : Nat) (ge : Bool) : Res Writer :=
